@@ -121,6 +121,10 @@ def enumerate_cases(tier, seed):
         ("CCO.|30%|CC{[$][$]CC([$])[$]; [$][H][$]}|gauss(60.0, 0)|.|70%|", 500.0),
     ]:
         yield ("open-component", {"text": text, "ext": ext})
+    # a component whose molecules the toolkit cannot sanitise (nitrile written nitrogen-first as suffix): they are still
+    # instances of that component; the stop rule counts what is YIELDED
+    yield ("odd-chemistry", {"text": "CCO.|50%|C{[$][$]CC[$][$]}|gauss(30.0, 0)|N#C.|200|", "ext": None, "smass": 400.0})
+    yield ("odd-chemistry", {"text": "C{[$][$]CC[$][$]}|gauss(30.0, 0)|N#C.|300|", "ext": None, "smass": 300.0})
     # masses fully specified, but one COMPONENT is not generable (no distribution / negative weight / open end): the
     # system must refuse on every random path, whichever component the pick lands on
     bad = ["{[][$]CC[$]; [$][H][]}", "OC{[>][<]CC[>][<]}CBr", "N{[$][$|-1|]CC[$][$]}|gauss(40, 0)|F"]
@@ -156,6 +160,74 @@ def member_sets(comps):
             raise HarnessError("component is not well posed")
         sets.append({member_form(R.plain_smiles_of_labelled(c)) for c in out})
     return sets
+
+
+def eval_odd_chemistry(res, data):
+    """every path of the ensemble iteration; masses from the residues of each yielded molecule (public residue graph),
+    so that molecules the toolkit refuses to sanitise are still weighed"""
+    import gbigsmiles
+    from gbigsmiles.system import System
+
+    text, ext, Smass = data["text"], data["ext"], float(data["smass"])
+
+    def rmass(mg):
+        from rdkit import Chem
+
+        tot = 0.0
+        for n in mg.graph.nodes:
+            frag = mg.graph.nodes[n]["smiles"].replace(".", "")
+            while "()" in frag:
+                frag = frag.replace("()", "")
+            m_ = Chem.MolFromSmiles(frag, sanitize=False)
+            if m_ is None:
+                raise HarnessError(f"cannot weigh fragment {frag!r}")
+            tot += sum(a.GetMass() for a in m_.GetAtoms() if a.GetAtomicNum() > 1)
+        return tot
+
+    def run(rng):
+        old = System.generator.fget.__defaults__
+        System.generator.fget.__defaults__ = (rng,)
+        out = []
+        try:
+            for mg in gbigsmiles.System(text, ext).generator:
+                out.append(rmass(mg))
+                if len(out) > 100:
+                    return ("runaway", out)
+            return ("ok", out)
+        except HarnessError:
+            raise
+        except Exception as e:  # noqa
+            return ("exc", f"{type(e).__name__}: {str(e)[:80]}")
+        finally:
+            System.generator.fget.__defaults__ = old
+
+    n = 0
+    lens = set()
+    for rng, obs in explore(run, max_exec=3000):
+        n += 1
+        res["states"] += max(1, len(rng.points))
+        res["transitions"] += max(1, len(rng.points))
+        if obs[0] != "ok":
+            viol(res, f"C13|odd-chemistry-{obs[0]}", f"System({text!r}): iteration {obs[0]}: {obs[1] if obs[0] == 'exc' else ''}", {"text": text, "script": rng.choices})
+            break
+        acc = 0.0
+        bad = None
+        for k, w in enumerate(obs[1]):
+            if acc >= Smass - 1e-9:
+                bad = f"molecule {k} is yielded although {acc:.3f} >= {Smass:.3f} was reached"
+            acc += w
+        if acc < Smass - 1e-9:
+            bad = f"iteration stops at accumulated mass {acc:.3f} of the yielded molecules < system mass {Smass:.3f}"
+        lens.add(len(obs[1]))
+        if bad:
+            viol(res, "C13|odd-chemistry-stop-rule", f"System({text!r}): {bad} (random path {rng.choices})", {"text": text, "script": rng.choices})
+            break
+    res["traces"] = n
+    res["evals"] = n
+    res["nontrivial"] = ["odd-chemistry", text]
+    res["outcomes"] = [f"odd-chemistry:len={k}" for k in sorted(lens)]
+    res["sample"] = {"system": text, "executions": n}
+    return res
 
 
 def eval_open_component(res, data):
@@ -464,6 +536,8 @@ def eval_case(kind, data):
         return eval_refusal_component(res, data)
     if kind == "open-component":
         return eval_open_component(res, data)
+    if kind == "odd-chemistry":
+        return eval_odd_chemistry(res, data)
     comps = [(c[0], c[1]) for c in data["comps"]]
     ext = data["ext"]
     text = sys_text(comps)
